@@ -122,12 +122,16 @@ Theorem continue_transparent p fuel s c :
   strat s <> SWarnPause -> is_init c = false ->
   do_cmd fuel (truncate p) s c = do_cmd fuel p s c.
 Proof.
-  intros Hs Hc. destruct c; try discriminate; cbn [do_cmd]; try reflexivity.
+  intros Hs Hc. destruct c as [r| | | | |t|t| |]; cbn [do_cmd].
+  - discriminate.
+  - reflexivity.
   - destruct (rep s); [|reflexivity]. apply do_start_trunc; exact Hs.
   - apply do_step_trunc.
+  - reflexivity.
   - apply do_start_trunc; exact Hs.
   - apply do_start_trunc; exact Hs.
   - apply do_end_repl_trunc.
+  - reflexivity.
 Qed.
 
 Lemma do_cmd_strat p fuel s c : strat (fst (do_cmd fuel p s c)) = strat s.
@@ -225,7 +229,7 @@ Theorem pause_leaves_resumable p fuel s b i a :
   rs s' = RStopped /\ ps s' = PStarted /\ Live s'.
 Proof.
   intros En Le Hne s'.
-  destruct (started_quiet p fuel s b i a En Le) as [[P L]|[P _]]; fold s' in P, L.
+  destruct (started_quiet p fuel s b i a En Le) as [[P L]|[P _]]; fold s' in P; try fold s' in L.
   - split; [|split; auto]. unfold s', after_loop, worker_ending. ssimpl.
     destruct (ps (run_loop fuel p a)) eqn:Q; try reflexivity. contradiction.
   - exfalso. destruct (after_loop_ps (run_loop fuel p a)) as [_ P2]. destruct (P2 Hne) as [A _].
@@ -265,6 +269,12 @@ Qed.
 (* ------------------------------------------------------------------ *)
 (** * A failing step *)
 
+Lemma step_checks_ps s : step_checks s = true -> ps s = PInit \/ ps s = PStarted.
+Proof.
+  unfold step_checks. intros H. apply andb_true_iff in H. destruct H as [H _].
+  apply andb_true_iff in H. destruct H as [_ H]. destruct (ps s); auto; discriminate.
+Qed.
+
 (** step() on an event whose handler fails: accepted, the failure does not
     escape (the result is an ordinary outcome), STOP is the last notification,
     the simulator is STOPPED with the replication STARTED, and the state is
@@ -283,8 +293,7 @@ Proof.
   set (s1 := match ps s with PInit => _ | _ => s end).
   set (s2 := emit (NStart (clock s1)) (set_rs RStarted s1)).
   assert (P2 : ps s2 = PStarted).
-  { unfold step_checks in Ck. unfold s2, s1. destruct (ps s); ssimpl; auto;
-      rewrite ?andb_false_r in Ck; cbn in Ck; rewrite ?andb_false_r in Ck; discriminate. }
+  { unfold s2, s1. destruct (step_checks_ps s Ck) as [Q|Q]; rewrite Q; ssimpl; auto. }
   set (s3 := match pend s2 with [] => s2 | _ => _ end).
   assert (P3 : ps s3 = PStarted).
   { unfold s3. destruct (pend s2) as [|e r] eqn:Hp; auto. destruct (ev_time e >? end_time s2); auto.
